@@ -278,9 +278,10 @@ def match_rows(model_rows, real_rows, exact_bounds=True):
 def stream_rows(c, N):
     K = S.problem_classes()
     rng = c.rng
+    hopts = dict(vr="0", cr="0", thr=fr(1e-8), fix=False)
+    lines, insts = [], []
     for _ in range(N):
         keep = rng.random() < 0.5
-        variant = "GP"
         inst = S.gen_instance(rng)
         n = len(inst["times"])
         specs = S.gen_goal_set(rng, n, keep, n_prios=rng.choice([1, 1, 2]), max_per_prio=3, allow_relax=False)
@@ -289,14 +290,12 @@ def stream_rows(c, N):
             for s in specs:
                 s.prio = p0
             S.fix_order(specs)
-            # shared keys inside one priority stay monotone by construction (generation order)
         p, gpoint, gpath = first_priority(specs)
         desc = dict(keep=keep, n=n, inst=inst, goals=[s.describe() for s in specs])
         if p is None:
             c.hit("rows/all-goals-empty")
             continue
-        opts = {"keep_soft_constraints": keep}
-        pr = K[variant](specs=specs, gp_opts=opts, stop_at="transcribe", **inst)
+        pr = K["GP"](specs=specs, gp_opts={"keep_soft_constraints": keep}, stop_at="transcribe", **inst)
         r = S.run_quiet(pr.optimize)
         if r[0] != "stop":
             c.disagree("well-formed goal set did not reach transcribe", desc, "stop", repr(r)[:300])
@@ -307,50 +306,44 @@ def stream_rows(c, N):
         pv = probe_values(pr, gpoint, gpath, 0, rng)
         E = pv["E"]
         real = list(zip(pv["g"].tolist(), pv["lb"].tolist(), pv["ub"].tolist()))
-        # ---- model rows
-        lines, meta = [], []
+        # ---- model rows: soft rows per goal; critical goals go through the store (one entry per
+        #      function key, merged in goal order with enforce="self")
+        meta = []
         for m in range(E):
             for kind, gl in (("point", gpoint), ("path", gpath)):
                 for j, s in enumerate(gl):
-                    if not s.is_target:
+                    if not s.is_target or s.crit:
                         continue
                     ns = 1 if kind == "point" else n
                     fs = [[float(x) for x in S.fvalue(s, pv["phys"][m], cc)] for cc in range(s.size)]
-                    if s.crit:
-                        lines.append(dict(op="critical", goal=s.wire(), n=ns,
-                                          opts=dict(vr="0", cr="0", thr=fr(1e-8), fix=False)))
-                        meta.append(("crit", s, m, fs, None))
+                    e = pv["d"][("peps" if kind == "path" else "eps", j, m)]
+                    eps = np.asarray(e, dtype=float).reshape((s.size, ns)).tolist()
+                    lines.append(dict(op="rows", goal=s.wire(), n=ns, f=[[fr(x) for x in r_] for r_ in fs],
+                                      eps=[[fr(x) for x in r_] for r_ in eps]))
+                    meta.append(("soft", s, None))
+        crit_keys = []  # (kind, fk, goals) in first-insertion order
+        for kind, gl in (("point", gpoint), ("path", gpath)):
+            for s in gl:
+                if s.crit:
+                    for entry in crit_keys:
+                        if entry[0] == kind and entry[1] == s.fk:
+                            entry[2].append(s)
+                            break
                     else:
-                        e = pv["d"][("peps" if kind == "path" else "eps", j, m)]
-                        eps = np.asarray(e, dtype=float).reshape((s.size, ns)).tolist()
-                        lines.append(dict(op="rows", goal=s.wire(), n=ns, f=[[fr(x) for x in r_] for r_ in fs],
-                                          eps=[[fr(x) for x in r_] for r_ in eps]))
-                        meta.append(("soft", s, m, fs, eps))
-        outs = c.model(lines)
-        n_soft = sum(1 for x in meta if x[0] == "soft")
+                        crit_keys.append((kind, s.fk, [s]))
+        for kind, fk, gl in crit_keys:
+            lines.append(dict(op="critchain", goals=[s.wire() for s in gl], n=1 if kind == "point" else n, opts=hopts))
+            meta.append(("crit", gl[0], len(gl)))
+        insts.append((desc, keep, n, E, gpoint, gpath, pv, real, nb, meta))
+    outs = c.model(lines)
+    pos = 0
+    for desc, keep, n, E, gpoint, gpath, pv, real, nb, meta in insts:
         c.count(("rows", keep, E, n, tuple(sorted((s.size, s.point is None, s.tmin[0], s.tmax[0], s.crit, len(s.nom), len(s.lo))
                                                  for s in gpoint + gpath))))
         c.hit("rows/instances")
         c.programs += 1
         c.sample({"stream": "rows", **desc}, limit=5)
-        if outs is None:
-            continue
-        model_rows = []
-        for (kind, s, m, fs, eps), o in zip(meta, outs):
-            if kind == "soft":
-                model_rows += [(unfr(v), unfr(l), unfr(u)) for v, l, u in o]
-                c.hit("rows/soft-goal")
-            else:
-                for i, (l, u) in enumerate(o):
-                    model_rows.append((fs[0][i] / s.nom_at(0), unfr(l), unfr(u)))
-                c.hit("rows/critical-goal")
-        goal_real = real  # all rows; the base rows are whatever is left over
-        missing, extra = match_rows(model_rows, goal_real)
-        if missing or len(real) != nb + len(model_rows):
-            c.disagree("goal rows of the first priority", desc,
-                       {"missing": missing[:6], "n_model": len(model_rows), "n_base": nb},
-                       {"n_real": len(real), "unmatched_real": extra[:6]})
-        # ---- epsilon bounds (exact) -- model: epsBounds = (0, 1)
+        # ---- epsilon bounds (exact): every violation variable is boxed by [0, 1]
         for key, ii in pv["idx"].items():
             if key[0] in ("peps", "eps"):
                 ii = np.asarray(ii, dtype=float).astype(int)
@@ -358,9 +351,28 @@ def stream_rows(c, N):
                 if not (np.all(pv["lbx"][ii] == 0.0) and np.all(pv["ubx"][ii] == 1.0)):
                     c.fail("violation variable not bounded by [0, 1]", desc,
                            {"lbx": pv["lbx"][ii].tolist(), "ubx": pv["ubx"][ii].tolist()})
-        # ---- oracle at the probe point: wherever the real soft rows are satisfied and eps in
-        #      [0,1], the envelope holds (the property on the real rows, without a solver)
-        # (done on solved instances in stream_solved; here the rows are only compared)
+        if outs is None:
+            continue
+        mo = outs[pos:pos + len(meta)]
+        pos += len(meta)
+        model_rows = []
+        for (kind, s, k), o in zip(meta, mo):
+            if kind == "soft":
+                model_rows += [(unfr(v), unfr(l), unfr(u)) for v, l, u in o]
+                c.hit("rows/soft-goal")
+            else:
+                for m in range(E):
+                    f = S.fvalue(s, pv["phys"][m], 0)
+                    for i, (l, u) in enumerate(o):
+                        model_rows.append((float(f[i]) / s.nom_at(0), unfr(l), unfr(u)))
+                c.hit("rows/critical-key")
+                if k > 1:
+                    c.hit("rows/critical-key-merged")
+        missing, extra = match_rows(model_rows, real)
+        if missing or len(real) != nb + len(model_rows):
+            c.disagree("goal rows of the first priority", desc,
+                       {"missing": missing[:6], "n_model": len(model_rows), "n_base": nb},
+                       {"n_real": len(real), "unmatched_real": extra[:6]})
 
 
 # ---------------------------------------------------------------------------------------------
